@@ -286,7 +286,9 @@ static struct {
 static int pre_errno = 0, last_errno = 0, nr_before = 0;
 static int snapshot_at_entry = 1, want_digest = 0, lean = 0;
 static size_t lean_log_off = 0, lean_devlog_off = 0, lean_sock_off = 0;
+static int extra_pty_master = -1;   /* master of the `ptyslave` terminal: drained with the other sinks (a full pty blocks its writer after a few hundred records) */
 static void lean_report(void) {
+    if (extra_pty_master >= 0) { char junk[4096]; while (read(extra_pty_master, junk, sizeof junk) > 0) {} }
     size_t n; unsigned char *b = slurp(path_log, &n);
     if (n < lean_log_off) lean_log_off = 0;
     out(","); out_bytes("logdelta", b ? b + lean_log_off : (unsigned char *)"", b ? n - lean_log_off : 0); lean_log_off = n; free(b);
@@ -527,7 +529,7 @@ int main(int argc, char **argv) {
         else if (!strcmp(tok[0], "dropctty")) { /* session leader WITHOUT a controlling terminal (a daemon after setsid): opening a terminal without O_NOCTTY would acquire it */
             void (*oh)(int) = signal(SIGHUP, SIG_IGN); void (*oc)(int) = signal(SIGCONT, SIG_IGN); int t = open("/dev/tty", O_RDWR | O_CLOEXEC); if (t >= 0) { ioctl(t, TIOCNOTTY); close(t); } signal(SIGHUP, oh); signal(SIGCONT, oc); }
         else if (!strcmp(tok[0], "ptyslave")) { /* a fresh pty whose slave path goes into the named environment variable; the master stays open here */
-            int m = posix_openpt(O_RDWR | O_NOCTTY | O_CLOEXEC); grantpt(m); unlockpt(m); fcntl(m, F_SETFL, O_NONBLOCK); char *nm = mkstr(tok[1]); setenv(nm, ptsname(m), 1); free(nm); }
+            int m = posix_openpt(O_RDWR | O_NOCTTY | O_CLOEXEC); grantpt(m); unlockpt(m); fcntl(m, F_SETFL, O_NONBLOCK); char *nm = mkstr(tok[1]); setenv(nm, ptsname(m), 1); free(nm); extra_pty_master = m; }
         else if (!strcmp(tok[0], "pwwalk")) { /* the caller is in the middle of its own walks through the user and group databases (descriptors open, positions set) */
             setpwent(); if (getpwent()) {} setgrent(); if (getgrent()) {} }
         else if (!strcmp(tok[0], "bindover")) { /* bindover <content> <path>: a private mount namespace in which a file with that content is bound over <path> */
